@@ -95,7 +95,8 @@ def rand_atomic(rng, floats=True, rats=False):
         if rng.random() < 0.6:
             return mkint(rng.randint(-5, 12))
         return mkint(rand_int(rng))
-    return mkfloat(rand_float(rng))
+    x = rand_float(rng)
+    return mkfloat(0.0 if x == 0 else x)     # the sign of zero is not observable in printed terms
 
 
 def rand_term(rng, depth=3, nvars=3, strings=True, floats=True, atoms=None):
